@@ -1,0 +1,52 @@
+// Verification hooks (feature `verif-hooks`): public wrappers around the crate-private store API
+// and read-only views of private state. Child module of `record_store`.
+
+use super::*;
+
+/// Read-only snapshot of the private indices.
+#[derive(Debug, Clone)]
+pub struct VerifStoreView {
+    pub records: Vec<(Key, RecordType)>,
+    pub records_by_distance: Vec<(U256, Key)>,
+    pub cache_keys: Vec<Key>,
+    pub farthest: Option<Key>,
+    pub responsible_distance_range: Option<U256>,
+    pub received_payment_count: usize,
+}
+
+impl NodeRecordStore {
+    pub fn verif_put_verified(&mut self, r: Record, record_type: RecordType) -> Result<()> {
+        self.put_verified(r, record_type)
+    }
+    pub fn verif_mark_as_stored(&mut self, key: Key, record_type: RecordType) {
+        self.mark_as_stored(key, record_type)
+    }
+    pub fn verif_contains(&self, key: &Key) -> bool {
+        self.contains(key)
+    }
+    pub fn verif_record_addresses(&self) -> HashMap<NetworkAddress, RecordType> {
+        self.record_addresses()
+    }
+    pub fn verif_quoting_metrics(&self, key: &Key, network_size: Option<u64>) -> (QuotingMetrics, bool) {
+        self.quoting_metrics(key, network_size)
+    }
+    pub fn verif_payment_received(&mut self) {
+        self.payment_received()
+    }
+    pub fn verif_set_responsible_distance_range(&mut self, range: U256) {
+        self.set_responsible_distance_range(range)
+    }
+    pub fn verif_view(&self) -> VerifStoreView {
+        VerifStoreView {
+            records: self.records.iter().map(|(k, (_, t))| (k.clone(), t.clone())).collect(),
+            records_by_distance: self.records_by_distance.iter().map(|(d, k)| (*d, k.clone())).collect(),
+            cache_keys: self.records_cache.records_cache.keys().cloned().collect(),
+            farthest: self.farthest_record.as_ref().map(|(k, _)| k.clone()),
+            responsible_distance_range: self.responsible_distance_range,
+            received_payment_count: self.received_payment_count,
+        }
+    }
+    pub fn verif_local_address(&self) -> NetworkAddress {
+        self.local_address.clone()
+    }
+}
